@@ -143,6 +143,8 @@ func loadRegions(
 	// the message packet to exceed the grpc message size limit (4MB). Here we use
 	// a variable rangeLimit to work around.
 	rangeLimit := maxKVRangeLimit
+	// Regions this pass has removed from the storage; a page fetched earlier may still hold them.
+	removed := make(map[uint64]struct{})
 	for {
 		startKey := regionPath(nextID)
 		_, res, err := kv.LoadRange(startKey, endKey, rangeLimit)
@@ -163,11 +165,17 @@ func loadRegions(
 			}
 
 			nextID = region.GetId() + 1
+			if _, ok := removed[region.GetId()]; ok {
+				// Deleted as an overlap of a region delivered before: it is not in the storage any more,
+				// delivering it would displace that region and delete its record too.
+				continue
+			}
 			overlaps := f(NewRegionInfo(region, nil))
 			for _, item := range overlaps {
 				if err := deleteRegion(kv, item.GetMeta()); err != nil {
 					return err
 				}
+				removed[item.GetID()] = struct{}{}
 			}
 		}
 
